@@ -134,7 +134,7 @@ def regex_shape(pat):
 
 class C16(Property):
     PID = 'C16'
-    QUICK_BUDGET_S = 40
+    QUICK_BUDGET_S = 60
     THOROUGH_BUDGET_S = 600
     RULE = ('a case is (t) a traceback text rendered by the harness from structured data: 0..n frames, each with '
             'file / line number / function / optional source line / optional position-marker line, a type name and '
@@ -1483,7 +1483,7 @@ class C16(Property):
             fr = t.tb_frame
             co = fr.f_code
             walk.append([co.co_filename, t.tb_lineno, co.co_name, fids.setdefault(id(fr), len(fids)),
-                         self._look(co.co_filename, t.tb_lineno, fr.f_globals)])
+                         self._look(co.co_filename, t.tb_lineno, fr.f_globals), max(t.tb_lasti, 0)])
             t = t.tb_next
         return walk
 
@@ -1902,14 +1902,14 @@ class C16(Property):
             pri = ';'.join('%s:%s' % (tt(o['attrs']), mt(o)) for o in obs.get('prior') or []) or '-'
             toks = ['L', 'n' if lim is None else str(lim), 'n' if tl is None else str(tl), tt(obs['attrs']),
                     mt(obs), pri]
-            for fn, ln, name, fid, look in obs['walk']:
+            for fn, ln, name, fid, look, lasti in obs['walk']:
                 if look is None:
                     return None
                 c, d, l = look
                 ct = 'a' if c[0] == 'a' else '%s:%s' % (c[0], hx(c[1])) if c[0] in 'zp' else 's:%d:%d:%s' % (c[1], c[2], hx(c[3]))
                 dt = 'n' if d[0] == 'n' else 'y:%d:%d:%s' % (d[1], d[2], hx(d[3]))
                 lt = 'n' if l[0] == 'n' else 'y:' + hx(l[1])
-                toks.append(','.join([hx(fn), str(ln), hx(name), str(fid), ct, dt, lt]))
+                toks.append(','.join([hx(fn), str(ln), hx(name), str(fid), ct, dt, lt, str(lasti)]))
             return ' '.join(toks)
         if k == 'r':
             return 'T ' + hx(case['text'])
@@ -2028,6 +2028,11 @@ class C16(Property):
         for ln in case['links']:
             key = 'live_link_' + ln['kind'] + ('_' + ln.get('how', 'as_e') if ln['kind'] == 'reraise' else '')
             st[key] = st.get(key, 0) + 1
+        wk = obs['walk']
+        if any(a[:3] == b[:3] and a[5] != b[5] for a, b in zip(wk, wk[1:])):
+            st['live_neighbours_differ_in_lasti_only'] = st.get('live_neighbours_differ_in_lasti_only', 0) + 1
+        if any(w[0].lower().endswith(('.pyc', '.pyo')) for w in wk):
+            st['live_bytecode_file_name'] = st.get('live_bytecode_file_name', 0) + 1
         fids = [w[3] for w in obs['walk']]
         if len(set(fids)) < len(fids):
             st['live_frame_listed_more_than_once'] = st.get('live_frame_listed_more_than_once', 0) + 1
